@@ -58,8 +58,8 @@ func buildReplay(prog *Program, repo, root, prop string, o *Oblig, r SolveResult
 		model = m
 	}
 	if model == nil {
-		rep.Note = "the verifier gave no model and the bounded search found none"
-		return rep
+		// scenario-based harnesses can still exercise the clause on the real code
+		model = map[string]string{}
 	}
 	rep.Model = model
 	name, src, ok := rp(model, o)
